@@ -198,3 +198,14 @@ def _rewrite(prop, case, f):
     if prop != "C18" or f.get("mode") != "rewrite" or not f.get("opened_for_writing"):
         return False
     return f.get("kind", "").startswith(("dataset_unreadable_after_rejection", "content_changed_after_rejection", "existing_part_file_unreadable_after_rejection"))
+
+
+@pred("foreign-v2-dictionary-column-read-as-category")
+def _v2_cat(prop, case, f):
+    # read_data_page_v2, branch "use_cat and dictionary": a run header is skipped as if the page had fastparquet's own layout
+    # and the decoder is called with itemsize=bit_width; on a foreign file the index stream is misparsed (over-read of the page
+    # buffer), giving TypeError / wrong codes or, when the stray header is an RLE run and bit_width == 0, a division by zero
+    # (SIGFPE) - which of these happens depends on heap contents
+    if prop == "C17":
+        return f.get("kind") == "process_crash" and case.get("src") in ("test-data", "refpq") and f.get("signal") in (8, 11)
+    return False
